@@ -2458,6 +2458,8 @@ class Signature(object):
         """
         if isinstance(txid, bytes):
             txid = txid.hex()
+        # The nonce is derived from this text: one spelling for one message
+        txid = txid.lower()
         if len(txid) > 64:
             txid = double_sha256(bytes.fromhex(txid), as_hex=True)
         if not isinstance(private, (Key, HDKey)):
